@@ -28,7 +28,8 @@ def _solve_one(job):
     if res in ("unknown", "error") and use_cvc5 and os.path.exists(CVC5):
         try:
             with tempfile.NamedTemporaryFile("w", suffix=".smt2", delete=False) as f:
-                f.write("(set-logic ALL)\n" + smt2 + "\n(check-sat)\n" if "(check-sat)" not in smt2 else "(set-logic ALL)\n" + smt2)
+                logic = "HO_ALL" if "(lambda" in smt2 else "ALL"
+                f.write(f"(set-logic {logic})\n" + smt2 + ("\n(check-sat)\n" if "(check-sat)" not in smt2 else ""))
                 path = f.name
             cmd = [CVC5, "--lang=smt2", f"--tlimit={CVC5_TIMEOUT_S * 1000}"]
             if strings:
